@@ -87,6 +87,9 @@ def agg_case(draw, tier):
             "maxnan": draw(st.integers(0, max(runs) + 1)),
             "drop_at": draw(st.integers(0, n - 1)),
             "regime": regime,
+            # which of the two kernels of the module is used first (the
+            # first case of a worker is the first use in that process)
+            "flat_first": draw(st.booleans()),
             "icont": draw(st.sampled_from(["int64", "int64", "int32", "list",
                                            "series", "strided", "int16",
                                            "uint32", "uint8"]))}
@@ -137,6 +140,10 @@ def agg_oracle(case):
     else:
         idx_in = idx
     labels.append(f"index-container:{ic}")
+    flat_pre = None
+    if case.get("flat_first"):
+        flat_pre = dutils.flathomogen(idx_in, x.copy(), maxnan)
+        labels.append("flathomogen-before-aggregate")
     out = dutils.aggregate(idx_in, x.copy(), op, maxnan)
     groups = np.unique(idx)
     if len(out) != len(groups):
@@ -179,6 +186,12 @@ def agg_oracle(case):
 
     # ---- flat homogenisation
     flat = dutils.flathomogen(idx_in, x.copy(), maxnan)
+    if flat_pre is not None:
+        if not np.array_equal(flat_pre, flat, equal_nan=True):
+            raise Violation(
+                "flathomogen called before / after aggregate gives different "
+                f"results: {flat_pre.tolist()[:12]} vs {flat.tolist()[:12]}")
+        flat = flat_pre
     if flat.shape != x.shape:
         raise Violation(f"flathomogen shape {flat.shape}")
     for k, gidx in enumerate(groups):
